@@ -75,6 +75,11 @@ func (fx *FuncExec) run() {
 	fx.initHeap(st)
 	sig := fi.Sig
 
+	if fx.contract != nil {
+		for _, ac := range fx.contract.After {
+			ac.Used = false
+		}
+	}
 	// pre-scan: address-taken locals, captured variables
 	fx.prescan(fi.Body)
 
@@ -213,6 +218,9 @@ func (fx *FuncExec) compsOf(d string, pkg *types.Package) []string {
 	}
 	if _, ok := fx.reg.compSort[d]; ok {
 		return []string{d}
+	}
+	if c, ok := fx.reg.ghostVars[d]; ok {
+		return []string{c}
 	}
 	// Struct.field
 	if i := strings.LastIndex(d, "."); i > 0 && !strings.ContainsAny(d, "[]*") {
